@@ -126,10 +126,9 @@ def handle (line : String) : String :=
           let attrB := attr = 1
           let target := uidName uid
           -- 1. the statement
-          -- 8-bit samples held as bytes under VR OW and written big endian: the data set writer emits the
-          -- bytes unswapped, the reader swaps words (a VR/value mismatch of the writer, not of transcoding);
-          -- the exact outcome is checked instead of the identity
-          let beOw8 := target == "ebe" ∧ bits = 8 ∧ ob == "0"
+          -- (8-bit samples held as bytes under VR OW used to come back word-swapped through an Explicit VR
+          -- Big Endian file; repaired in the data set writer: the identity is demanded there too)
+          let beOw8 := false
           match oracle "mem" target rows cols spp bits frames attrB data false mem with
           | some e => s!"PROP-FAIL {e}"
           | none =>
@@ -170,7 +169,7 @@ def handle (line : String) : String :=
                   if (target == "uncompressed" ∨ cls == "nat") ∧ (fm.tl ≠ o2.totalLength ∨ ff.tl ≠ o2.totalLength) then
                     s!"MODEL-DIFF {target} total length model={o2.totalLength} impl={fm.tl}/{ff.tl}" else
                   let fsz := rows * cols * spp * (bits / 8)
-                  s!"ok rt-{target}-{src}-b{bits}-s{spp}p{planar}-f{cntClass frames}-{if fsz % 2 = 1 then "oddframe" else "evenframe"}-{if data.length % 2 = 1 then "oddtotal" else "eventotal"}-attr{attr}-{if beOw8 then "file-be-ow8-swapped" else if ff.px.length = data.length then "filesame" else "filepadded"}{if fm.tl.isSome then "-staletotal" else ""}"
+                  s!"ok rt-{target}-{src}-b{bits}-s{spp}p{planar}-f{cntClass frames}-{if fsz % 2 = 1 then "oddframe" else "evenframe"}-{if data.length % 2 = 1 then "oddtotal" else "eventotal"}-attr{attr}-{if ff.px.length = data.length then "filesame" else "filepadded"}{if target == "ebe" ∧ bits = 8 ∧ ob == "0" then "-ow8" else ""}{if fm.tl.isSome then "-staletotal" else ""}"
               | _, _ => "MODEL-DIFF unreachable"
         | _ => "BAD-LINE"
       | _ => "BAD-LINE"
